@@ -12,3 +12,17 @@ Proof.
   rewrite IH. apply flat_map_ext. intros v. unfold in_nullables, not_epsilon. destruct X as [B|a]; [destruct (mem B nul)|]; reflexivity.
 Qed.
 
+
+(* remove_epsilon of the model = the source's remove_nullable_production mapped over the productions *)
+Lemma py_remove_epsilon_prods {Vr} `{EqDec Vr} (G : cfg Vr) :
+  g_prods (remove_epsilon G) = flat_map (py_remove_nullable_production (nullable_vars G)) (g_prods G).
+Proof.
+  unfold remove_epsilon. cbn [mkcfg g_prods]. apply flat_map_ext. intros p. unfold py_remove_nullable_production.
+  rewrite py_nullable_sub_eq. f_equal. apply filter_ext. intros b. now destruct b.
+Qed.
+
+(* the normal-form test on productions is the source's Production.is_normal_form *)
+Lemma py_prod_is_nf_eq {Vr} `{EqDec Vr} (p : Vr * list (symb Vr)) : py_production_is_normal_form (snd p) = prod_is_nf p.
+Proof.
+  unfold py_production_is_normal_form, prod_is_nf. destruct (snd p) as [|[B|a] [|[C|c] [|? ?]]]; reflexivity.
+Qed.
